@@ -50,6 +50,12 @@ def distinguished_chars(model):
                 v = n.value.decode("latin-1") if isinstance(n.value, bytes) else n.value
                 if len(v) <= 12 and "\n " not in v[1:-1]:
                     out.update(v)
+            elif isinstance(n, ast.Constant) and isinstance(n.value, int) \
+                    and not isinstance(n.value, bool) and 0x7F <= n.value <= 0x10FFFF:
+                # a code point threshold (ord(ch) < 0x800 ...): the boundary and its neighbours
+                for c in (n.value - 1, n.value, n.value + 1):
+                    if 0 <= c <= 0x10FFFF and not 0xD800 <= c <= 0xDFFF:
+                        out.add(chr(c))
     for p in patterns:
         if isinstance(p, bytes):
             p = p.decode("latin-1")
@@ -413,6 +419,35 @@ def explore_params(ctx, extended=False):
                           f"with the same content as {t3!r}", mutation=mutate)
             except AbsRaise as e:
                 F.add("fresh", f"{mutate} then to_ical raises {e.cls_name}", mutation=mutate)
+        # history independence: what was serialised before must not matter
+        # (typed parameter values that compare equal across types: True == 1 == 1.0)
+        typed = [("prop.vBoolean", True), ("prop.vInt", 1), ("prop.vFloat", 1.0), ("prop.vInt", 0),
+                 ("prop.vBoolean", False), ("prop.vText", "1"), ("prop.vText", "TRUE"), (None, "1.0")]
+
+        def typed_value(interp, cq, v):
+            return v if cq is None else interp.instantiate(model.cls(cq), [v], {})
+
+        def emit_in(interp, cq, v):
+            p = interp.instantiate(P, [], {})
+            interp.run(interp.getattr(p, "__setitem__"), ["K", typed_value(interp, cq, v)], {})
+            b = interp.run(interp.getattr(p, "to_ical"), [], {})
+            return b.decode("utf-8") if isinstance(b, bytes) else b
+        for order in (typed, list(reversed(typed))):
+            shared = TextInterp(model)
+            for cq, v in order:
+                F.n += 1
+                try:
+                    with_history = emit_in(shared, cq, v)
+                    alone = emit_in(TextInterp(model), cq, v)
+                except AbsRaise as e:
+                    F.add("history", f"serialising a {cq or 'str'} parameter value raises {e.cls_name}",
+                          value=repr(v))
+                    continue
+                if with_history != alone:
+                    F.add("history", "the text of a parameter depends on what was serialised before "
+                          "(values that compare equal across types share a cached result)",
+                          value=f"{(cq or 'str').split('.')[-1]}({v!r})", after_others=with_history,
+                          alone=alone)
         # reader side: quoted / unquoted forms, strictness
         for text, want in (('K="a,b"', {"K": "a,b"}), ('K="a","b"', {"K": ["a", "b"]}),
                            ('K=a,"b;c"', {"K": ["a", "b;c"]}), ('k=Abc', {"K": "Abc"}),
@@ -439,7 +474,7 @@ def explore_params(ctx, extended=False):
 
 
 PARAM_LAWS = ["serialisable", "RFC grammar", "quoting", "order", "round trip", "line round trip",
-              "no injection", "fresh", "reader", "reader rejects"]
+              "no injection", "fresh", "history", "reader", "reader rejects"]
 
 
 # ---------------------------------------------------------------------------
@@ -568,6 +603,123 @@ def explore_lines(ctx):
     return F
 
 
+def explore_wire(ctx):
+    """C07 (and C05's injection clause) along the whole wire path: a TEXT value
+    is joined into a content line, the line list is serialised to bytes
+    (folding), the bytes are split into lines again, the line is split into
+    parts and the value decoded.  Also raw str / bytes values (no codec object)
+    and the items of a comma-separated list property (vCategory)."""
+    model = ctx.model
+    it = TextInterp(model)
+    F = Findings()
+    CL = model.cls("parser.Contentline")
+    CLS = model.cls("parser.Contentlines")
+    VT = model.cls("prop.vText")
+    VC = model.cls("prop.vCategory")
+    from_parts = it.getattr(ClassVal(CL), "from_parts")
+    lines_from = it.getattr(ClassVal(CLS), "from_ical")
+    vtext_from = it.getattr(ClassVal(VT), "from_ical")
+    vcat_from = it.getattr(ClassVal(VC), "from_ical")
+    alpha = value_alphabet(model)
+    max_len = 3 if ctx.thorough else 2
+
+    def documented(t):
+        return t.replace("\r\n", "\n")
+
+    def through_wire(name, value):
+        """-> decoded text after join, serialise, split, parts, decode; or ('lines', n)."""
+        params = mk_params(it, model, {})
+        line = it.run(from_parts, [name, params, value], {})
+        lst = it.instantiate(CLS, [[line, ""]], {})
+        data = it.run(it.getattr(lst, "to_ical"), [], {})
+        back = it._as_list(it.run(lines_from, [data], {}))
+        logical = [x for x in back if _s(x) != ""]
+        if len(logical) != 1:
+            return ("lines", [_s(x)[:40] for x in logical])
+        n2, p2, v2 = it.run(it.getattr(logical[0], "parts"), [], {})
+        if _s(n2) != name or _params_dict(it, p2):
+            return ("structure", _s(n2), _params_dict(it, p2))
+        return ("value", v2)
+
+    try:
+        texts = list(strings(alpha, max_len))
+        # longer values that cross a fold boundary next to white space and line breaks
+        texts += ["a" * 60 + x + "b" * 30 for x in ("\r ", "\r\t", " ", "\t", "\r", "\n ", "\r\n ", " \r")]
+        texts += ["x" * 66 + "\r" + " y", "BEGIN:VEVENT", "a\nEND:VCALENDAR\nBEGIN:VEVENT"]
+        for t in texts:
+            for kind in ("vText", "str", "bytes"):
+                if kind != "vText" and len(t) > 2 and len(t) < 40:
+                    continue
+                F.n += 1
+                try:
+                    val = it.instantiate(VT, [t], {}) if kind == "vText" else (
+                        t if kind == "str" else t.encode("utf-8"))
+                    r = through_wire("SUMMARY", val)
+                except AbsRaise as e:
+                    F.add("wire", f"a TEXT value given as {kind} cannot be serialised and read back "
+                          f"({e.cls_name})", chars=t if len(t) < 8 else None, value=t[:40], kind=kind)
+                    continue
+                if r[0] == "lines":
+                    F.add("no injection", f"a TEXT value given as {kind} comes back as {len(r[1])} content "
+                          f"lines", chars=t if len(t) < 8 else None, value=t[:40], lines=r[1])
+                elif r[0] == "structure":
+                    F.add("no injection", f"a TEXT value given as {kind} changes the name or creates "
+                          f"parameters", chars=t if len(t) < 8 else None, value=t[:40], name=r[1], params=r[2])
+                else:
+                    try:
+                        dec = _s(it.run(vtext_from, [r[1]], {}))
+                    except AbsRaise as e:
+                        F.add("wire", f"the value text read back does not decode ({e.cls_name})",
+                              value=t[:40], kind=kind)
+                        continue
+                    if dec != documented(t):
+                        F.add("wire", f"a TEXT value given as {kind} is not restored by serialise and "
+                              f"parse (beyond CRLF -> LF)", chars=t if len(t) < 8 else None,
+                              value=t[:60], decoded=dec[:60])
+        # comma-separated list property: items over the alphabet without the separator
+        item_alpha = [c for c in alpha if c != ","]
+        items = list(strings(item_alpha, 2 if not ctx.thorough else 2))
+        seen = 0
+        for a_ in items:
+            for b_ in ("x", "", a_):
+                F.n += 1
+                seen += 1
+                lst = [a_, b_]
+                try:
+                    cat = it.instantiate(VC, [list(lst)], {})
+                    raw = it.run(it.getattr(cat, "to_ical"), [], {})
+                    back = it.run(vcat_from, [raw], {})
+                    got = [_s(x) for x in it._as_list(back)]
+                except AbsRaise as e:
+                    F.add("list", f"a list of TEXT items cannot be encoded and decoded ({e.cls_name})",
+                          chars="".join(lst), items=lst)
+                    continue
+                want = [documented(x) for x in lst]
+                if got != want:
+                    F.add("list", "the items of a comma-separated TEXT list are not restored by the list "
+                          "codec (beyond CRLF -> LF)", chars="".join(lst), items=lst, decoded=got)
+                    continue
+                # and through the wire as a CATEGORIES property
+                try:
+                    r = through_wire("CATEGORIES", cat)
+                    if r[0] != "value":
+                        F.add("no injection", "a TEXT list item creates content lines, parameters or "
+                              "another name", chars="".join(lst), items=lst)
+                        continue
+                    got = [_s(x) for x in it._as_list(it.run(vcat_from, [r[1]], {}))]
+                    if got != want:
+                        F.add("list", "the items of a comma-separated TEXT list are not restored by "
+                              "serialise and parse", chars="".join(lst), items=lst, decoded=got)
+                except AbsRaise as e:
+                    F.add("list", f"a CATEGORIES line cannot be serialised and read back ({e.cls_name})",
+                          chars="".join(lst), items=lst)
+    except Unsupported as e:
+        raise AnalysisError(f"wire model leaves the abstract interface: {e}")
+    return F
+
+
+WIRE_LAWS = ["wire", "no injection", "list"]
+
 LINE_LAWS = ["serialisable", "readable", "no raw line break", "name", "parameters", "value", "token",
              "reader", "reader rejects"]
 
@@ -592,6 +744,38 @@ def explore_physical(ctx):
     pool = ["A:b", "X-LONG:" + "a" * 70, "N:" + "a" * 73 + " b" * 40, "U:" + "é" * 40 + " \t" + "€" * 30,
             "E:" + "\U0001F600" * 25, "S: " + " " * 80, "T:" + "a" * 72 + "\t\t" + "b" * 80,
             "M:" + ("a" * 74 + "é") * 3, "B:x" + "a" * 71 + " BEGIN:VEVENT", "Z:" + "a" * 148]
+    # every non-ASCII character the text layer distinguishes (code point thresholds of a
+    # width table, ...) gets lines of its own, alone and after an ASCII prefix of every
+    # residue (so that each lands on a fold boundary)
+    for c in sorted(ch for ch in distinguished_chars(model) if ord(ch) >= 0x80):
+        pool.append("D:" + c * 60)
+        pool.append("D:" + "a" * 70 + c * 12)
+        pool.append("D:" + ("a" * 7 + c) * 20)
+    def check_physical(L, phys, how):
+        """The fold laws on one serialised line."""
+        parts = phys.split(b"\r\n")
+        for i, ph in enumerate(parts):
+            if len(ph) > 75:
+                F.add("75 octets", f"a physical line is longer than 75 octets ({how})", line=L[:30] + "…",
+                      octets=len(ph))
+            try:
+                ph.decode("utf-8")
+            except UnicodeDecodeError:
+                F.add("whole characters", f"a physical line is not valid UTF-8 on its own ({how})",
+                      line=L[:30] + "…")
+            if i and not ph.startswith(b" "):
+                F.add("one space", f"a continuation line does not start with a space ({how})",
+                      line=L[:30] + "…")
+        if b"\n" in phys.replace(b"\r\n", b"") or b"\r" in phys.replace(b"\r\n", b""):
+            F.add("CRLF", f"a bare CR or LF appears in the folded line ({how})", line=L[:30] + "…")
+        # exact unfolding by the RFC rule
+        try:
+            if phys.replace(b"\r\n ", b"").decode("utf-8") != L:
+                F.add("one space", f"removing each CRLF + one space does not restore the line ({how})",
+                      line=L[:30] + "…")
+        except UnicodeDecodeError:
+            pass
+
     try:
         for n, L in enumerate(pool):
             F.n += 1
@@ -599,28 +783,31 @@ def explore_physical(ctx):
             phys = it.run(it.getattr(cl, "to_ical"), [], {})
             if not isinstance(phys, bytes):
                 raise Unsupported(f"Contentline.to_ical returned {phys!r}")
-            parts = phys.split(b"\r\n")
-            for i, ph in enumerate(parts):
-                if len(ph) > 75:
-                    F.add("75 octets", "a physical line is longer than 75 octets", line=L[:30] + "…",
-                          octets=len(ph))
-                try:
-                    ph.decode("utf-8")
-                except UnicodeDecodeError:
-                    F.add("whole characters", "a physical line is not valid UTF-8 on its own",
-                          line=L[:30] + "…")
-                if i and not ph.startswith(b" "):
-                    F.add("one space", "a continuation line does not start with a space", line=L[:30] + "…")
-            if b"\n" in phys.replace(b"\r\n", b"") or b"\r" in phys.replace(b"\r\n", b""):
-                F.add("CRLF", "a bare CR or LF appears in the folded line", line=L[:30] + "…")
-            # exact unfolding by the RFC rule and by the repo's reader
-            if phys.replace(b"\r\n ", b"").decode("utf-8") != L:
-                F.add("one space", "removing each CRLF + one space does not restore the line",
-                      line=L[:30] + "…")
+            check_physical(L, phys, "Contentline(text).to_ical()")
             back = _s(it.run(line_from, [phys], {}))
             if back != L:
                 F.add("unfold", "Contentline.from_ical(to_ical()) does not restore the line exactly",
                       line=L[:30] + "…", restored=back[:60])
+            # the same line read from differently folded input and written again
+            for width, ws in ((70, " "), (30, "\t")):
+                F.n += 1
+                wire = ("\r\n" + ws).join(L[i:i + width] for i in range(0, len(L), width)) or L
+                try:
+                    cl2 = it.run(line_from, [wire.encode("utf-8")], {})
+                    if _s(cl2) != L:
+                        F.add("unfold", "a line folded elsewhere (by characters) is not restored by "
+                              "Contentline.from_ical", line=L[:30] + "…")
+                        continue
+                    phys2 = it.run(it.getattr(cl2, "to_ical"), [], {})
+                    if not isinstance(phys2, bytes):
+                        raise Unsupported(f"Contentline.to_ical returned {phys2!r}")
+                    check_physical(L, phys2, "Contentline.from_ical(otherwise folded input).to_ical()")
+                    if phys2 != phys:
+                        F.add("emit", "a line read with Contentline.from_ical is serialised differently "
+                              "from the same line constructed directly", line=L[:30] + "…")
+                except AbsRaise as e:
+                    F.add("unfold", f"Contentline.from_ical / to_ical raises {e.cls_name} on a line folded "
+                          f"by characters", line=L[:30] + "…")
         # several lines
         for combo in ((0, 1), (1, 2, 3), (5, 0, 6), (8, 9)):
             F.n += 1
